@@ -81,6 +81,7 @@ def run(ctx, check_theorems=True):
         'distinct_route_cases': len(stats['distinct']),
         'distribution': dict(sorted(stats['dist'].items())),
         'routes': stats['routes'],
+        'object_class_history': stats['histories'],
         'policies': stats['policies'],
         'shapes': stats['shapes'],
         'model_lines_compared': stats['model_lines_compared'],
